@@ -154,6 +154,7 @@ structure Cfg where
   refundDeletes : Bool       -- IbcRefund calls DeleteIBCTransferRelation
   refundConverts : Bool      -- IbcRefund calls ConvertCoin
   refundGuarded : Bool       -- `if !Delete(..) { return nil }` in front of ConvertCoin
+  deleteReports : Bool       -- DeleteIBCTransferRelation returns false when there is no record
   recvDiscards : Bool        -- keeper error in OnRecvPacket => error acknowledgement (cache discarded by IBC core)
   recvOrder : Bool           -- middleware OnRecvPacket runs ParseAddress, the transfer app, then the keeper hook
   sendSetsRel : Bool         -- ibcTransfer records the relation for non-origin tokens
@@ -183,6 +184,7 @@ def genCfg : Cfg where
   refundDeletes := Gen.C19.ibcRefundCalls.contains "DeleteIBCTransferRelation"
   refundConverts := Gen.C19.ibcRefundCalls.contains "ConvertCoin"
   refundGuarded := Gen.C19.ibcRefundGuardedByDelete
+  deleteReports := Gen.C19.deleteReportsMissing
   recvDiscards := Gen.C19.recvErrorReturnsErrorAck
   recvOrder := Gen.C19.recvCalls == ["ParseAddress", "IBCModule.OnRecvPacket", "Keeper.OnRecvPacket"]
   sendSetsRel := Gen.C19.sendSetsRelationWhenNotOrigin
@@ -217,6 +219,7 @@ def refCfg (ackDel : Nat) : Cfg where
   refundDeletes := true
   refundConverts := true
   refundGuarded := true
+  deleteReports := true
   recvDiscards := true
   recvOrder := true
   sendSetsRel := true
@@ -312,6 +315,7 @@ inductive Op where
   | reset
   | chan (l r : Ch)
   | vmeta (l : Ch)
+  | seqset (l : Ch) (n : Nat)                    -- the next send sequence of channel `l` jumps forward to `n`
   | fund (a : Addr) (t : Tok) (l : Ch) (amt : Nat)
   | recv (l : Ch) (t : Tok) (k : RKind) (to : Addr) (amt : Nat) (m : Memo) (snd : Nat)
   | send (l : Ch) (sender : Addr) (t : Tok) (amt : Nat)
@@ -482,11 +486,11 @@ def ackOkCtl (cfg : Cfg) (c : Ctl) (k : Ch × Seq) (p : Pkt) : Ctl :=
            rel := if cfg.ackOkRemoves then dropRelOpt c.rel (keyOf cfg.ackOkChan cfg.ackOkSeq k.1 p.dst k.2) else c.rel,
            ackedOk := k :: c.ackedOk }
 
-/-- the key IbcRefund looks for, if its delete finds a record -/
+/-- the key IbcRefund looks for, if its delete reports that it found a record -/
 def refundFound (cfg : Cfg) (c : Ctl) (k : Ch × Seq) (p : Pkt) : Option (Ch × Seq) :=
   if cfg.refundSees then
     match keyOf cfg.refundChan cfg.refundSeq k.1 p.dst k.2 with
-    | some k' => if c.rel.contains k' then some k' else none
+    | some k' => if c.rel.contains k' || !cfg.deleteReports then some k' else none
     | none => none
   else none
 
@@ -571,6 +575,8 @@ def stepWith (cfg : Cfg) (s : State) : Op → State × Out
   | .reset => (init, .ok)
   | .chan l r => ({ s with ctl := { s.ctl with cp := (l, r) :: s.ctl.cp.filter (fun p => p.1 != l) } }, .ok)
   | .vmeta l => ({ s with ctl := { s.ctl with vmeta := l :: s.ctl.vmeta } }, .ok)
+  | .seqset l n =>
+    if sget s.ctl.next l + 1 < n then ({ s with ctl := { s.ctl with next := sset s.ctl.next l (n - 1) } }, .ok) else (s, .ok)
   | .fund a t l amt =>
     if t = .V ∨ t = .X then (s, .badOp) else ({ s with bal := fundBal s.bal a t l amt }, .ok)
   | .recv l t k to amt m snd =>
@@ -613,6 +619,10 @@ def parseOp (line : String) : Op :=
     match l.toNat? with
     | some l => .vmeta l
     | _ => .bad
+  | ["seq", l, n] =>
+    match l.toNat?, n.toNat? with
+    | some l, some n => .seqset l n
+    | _, _ => .bad
   | ["fund", a, t, l, amt] =>
     match a.toNat?, parseTok t, l.toNat?, amt.toNat? with
     | some a, some t, some l, some amt => .fund a t l amt
